@@ -38,7 +38,8 @@ ACCESS = st.one_of(
 )
 
 ROUTE_FORMS = gen.FORMS + ["csr_zeros", "csc_zeros", "coo_zeros",
-                           "csr_unsorted"]
+                           "csr_unsorted", "list_sparse_csr",
+                           "list_sparse_csc", "list_sparse_coo"]
 
 
 @st.composite
